@@ -193,6 +193,21 @@ func e2ePatch(c *e2eCtx) error {
 			return
 		}
 		defer os.RemoveAll(s.dir)
+		// one project in three selects only its LAST main package (an earlier one is left out: the
+		// selected component's number is not its position among the selected ones)
+		if i%3 == 2 {
+			var mains []string
+			for _, pk := range s.p.Pkgs {
+				if pk.IsMain {
+					mains = append(mains, pk.Dir)
+				}
+			}
+			if len(mains) >= 2 {
+				s.cfg.MainEntries = []string{mains[len(mains)-1]}
+				proj.WriteConfig(s.dir, s.cfg)
+				s.desc = cfgDesc(s.cfg)
+			}
+		}
 		run := proj.RunGoat(c.goat, s.dir, nil, "track")
 		if run.Exit != 0 {
 			return // C01's business
@@ -217,6 +232,19 @@ func e2ePatch(c *e2eCtx) error {
 				return
 			}
 			c.patchRound(s, r, rounds+1, &patchDirective{dirs: dirs, inserts: 1 + r.Intn(2)})
+		}
+		// directed round (one in two projects): every tracking point that belongs to a component is
+		// deleted; what is left lives in packages no main package imports
+		if r.Intn(2) == 0 {
+			all := map[string]bool{}
+			for _, pk := range s.p.Pkgs {
+				if pk.IsMain {
+					for d := range s.closureDirs(pk) {
+						all[d] = true
+					}
+				}
+			}
+			c.patchRound(s, r, rounds+2, &patchDirective{dirs: all, deleteAll: true})
 		}
 	})
 	return nil
